@@ -26,7 +26,11 @@ import (
 	"crypto/sha256"
 
 	"github.com/btcsuite/btcd/btcec/v2"
+	"github.com/btcsuite/btcd/btcutil/v2"
 	"github.com/btcsuite/btcd/txscript/v2"
+	"github.com/lightningnetwork/lnd/channeldb"
+	"github.com/lightningnetwork/lnd/lntypes"
+	"github.com/lightningnetwork/lnd/lnwallet/chainfee"
 )
 
 type vmKeyEnt struct {
@@ -184,8 +188,31 @@ func vmPrivKeyFromBytes(pk []byte) (*btcec.PrivateKey, *btcec.PublicKey) {
 	return new(btcec.PrivateKey), vmNewKey(vHash("scalarbasemult", 32, pk))
 }
 
+// vmHtlcIsDust forces a case split on the result of the REAL HtlcIsDust (the
+// self-replacement makes the engine run the original body): without it the
+// engine merges "if HtlcIsDust(..) {continue}; numHTLCs++" into an ite, the
+// commitment weight becomes symbolic and every later query contains
+// feePerKw * weight (symbolic x symbolic).
+var vmSink int
+
+func vmHtlcIsDust(chanType channeldb.ChannelType, incoming bool, whoseCommit lntypes.ChannelParty,
+	feePerKw chainfee.SatPerKWeight, htlcAmt, dustLimit btcutil.Amount) bool {
+
+	const real = "github.com/lightningnetwork/lnd/lnwallet.HtlcIsDust"
+	vReplace(real, real)
+	d := HtlcIsDust(chanType, incoming, whoseCommit, feePerKw, htlcAmt, dustLimit)
+	vReplace(real, "github.com/lightningnetwork/lnd/lnwallet.vmHtlcIsDust")
+	if d {
+		vmSink++
+		return true
+	}
+	vmSink--
+	return false
+}
+
 func vmConfig() {
 	vmKeyTab = nil
+	vReplace("github.com/lightningnetwork/lnd/lnwallet.HtlcIsDust", "github.com/lightningnetwork/lnd/lnwallet.vmHtlcIsDust")
 	const in = "github.com/lightningnetwork/lnd/input."
 	const me = "github.com/lightningnetwork/lnd/lnwallet."
 	for _, f := range []string{
